@@ -200,8 +200,10 @@ def non_json_sweep_checks(run: core.Run) -> None:
     Decimals, sets from the Python API): the run is valid, so its trace is the bracket of three schema-valid records."""
     import datetime as _dt
     import decimal as _dec
+    from .. import seams
     from ..traced import run_traced, schema_errors
 
+    seams.setup()
     for vals in ([_dt.date(2026, 1, 1), _dt.date(2026, 1, 2)], [_dt.datetime(2026, 1, 1, 12, 0)], [b"\x00\xff", b"a"], [(1, 2), (3, 4)],
                  [_dec.Decimal("1.5")], [frozenset({1})]):
         nodes = [{"processor": "FloatValueDataSource", "derive": {"parameter_sweep": {"parameters": {"value": "2.0 if d else 3.0"}, "variables": {"d": {"values": vals}},
@@ -209,6 +211,8 @@ def non_json_sweep_checks(run: core.Run) -> None:
         for detail in ("hash", "all"):
             run.evaluations += 1
             obs = run_traced(nodes, None, {}, detail=detail)
+            if obs["construct_error"]:
+                raise core.MachineryError(f"non-JSON sweep probe could not be built: {obs['construct_error']}")
             kinds = [r.get("record_type") for r in obs["records"]]
             tname = type(vals[0]).__name__
             if obs["raised"] is not None or kinds != ["pipeline_start", "ser", "pipeline_end"]:
